@@ -7,6 +7,19 @@ KEYS_SKIP = ("trace",)
 def norm(obs_text):
     return "\n".join(l for l in obs_text.splitlines() if not any(l.split(" ", 1)[0].endswith("." + k) for k in KEYS_SKIP))
 
+def reorder(rev_text, plain_text):
+    """the lines of a run over the reversed case list, put back into the case order of the plain run"""
+    groups = {}
+    for l in rev_text.splitlines(): groups.setdefault(l.split(".", 1)[0], []).append(l)
+    order = []
+    for l in plain_text.splitlines():
+        k = l.split(".", 1)[0]
+        if k not in order: order.append(k)
+    out = []
+    for k in order: out += groups.pop(k, [])
+    for k in groups: out += groups[k]
+    return "\n".join(out)
+
 def first_diff(a, b):
     la, lb = a.splitlines(), b.splitlines()
     for i in range(max(len(la), len(lb))):
@@ -72,7 +85,25 @@ def run(ctx):
     for c in dc:
         c.ops = [o for o in c.ops if not o.startswith("CPBITS")]
         c.settings = [(k, v) for k, v in c.settings if k not in dict(G.FRIENDLY)] + [("max_iter", "40")]
+    # instance independence: a second family with iterative refinement always on and a visible static regularisation, on problems
+    # whose P has very different magnitudes: any state shared between solver objects (a function-local static, a global cache)
+    # makes a result depend on which OTHER problems were solved before it in the same process
+    from fractions import Fraction as Fr
+    for i in range(M // 2):
+        pb = G.gen_problem(rng)
+        sc = Fr(10) ** rng.choice([-2, 0, 0, 2, 4, 6, 8])
+        pb = dict(pb, P=[[v * sc for v in row] for row in pb["P"]], c=[v * sc for v in pb["c"]], gen_tags=list(pb.get("gen_tags", [])) + ["Pscale%g" % float(sc)])
+        c = SS.gen_history(rng, "q%d" % i, focus="updates", cp=0, pb=pb,
+                           force_settings=[("iterative_refinement_always_enabled", "1"),
+                                           ("iterative_refinement_static_regularization_rel", rng.choice(["1/1024", "1/1048576"]))])
+        c.tags.append("refine-always")
+        dc.append(c)
+    for c in dc:
+        c.ops = [o for o in c.ops if not o.startswith("CPBITS")]
+        c.settings = [(k, v) for k, v in c.settings if k not in dict(G.FRIENDLY)]
+        c.settings = [(k, v) for k, v in c.settings if k != "max_iter"] + [("max_iter", "40")]
     text = "".join(c.text() for c in dc)
+    text_rev = "".join(c.text() for c in reversed(dc))
     textv = "".join(c.text().replace("SETUP\n", "SET verbose 1\nSET compute_timings 1\nSETUP\n", 1) for c in dc)
     dbuilt = vlib.build_many(ctx, [spine.build_impl(ctx, b, "ruiz", scalar="double") for b in spine.ALL_BACKENDS])
     for b, (exe, msg) in zip(spine.ALL_BACKENDS, dbuilt):
@@ -80,16 +111,18 @@ def run(ctx):
         if exe is None: ctx.ob(obn, "oracle", False, msg); continue
         cf = os.path.join(ctx.work, "c07d_%s.cases" % b); open(cf, "w").write(text)
         cfv = os.path.join(ctx.work, "c07dv_%s.cases" % b); open(cfv, "w").write(textv)
+        cfr = os.path.join(ctx.work, "c07dr_%s.cases" % b); open(cfr, "w").write(text_rev)
         runs = {}
         for tag, env, args, f in (("plain", {}, [], cf), ("perturb85", {"MALLOC_PERTURB_": "85"}, [], cf), ("perturb255", {"MALLOC_PERTURB_": "255"}, [], cf),
-                                  ("perturb1", {"MALLOC_PERTURB_": "1"}, [], cf), ("threads8", {"MALLOC_PERTURB_": "170"}, ["--threads", "8"], cf),
+                                  ("perturb1", {"MALLOC_PERTURB_": "1"}, [], cf), ("threads8", {"MALLOC_PERTURB_": "170"}, ["--threads", "8"], cf), ("reversed-order", {}, [], cfr),
                                   ("verbose+timings", {"VERIF_OBS_FILE": os.path.join(ctx.work, "obs_%s.txt" % b)}, [], cfv)):
             rc, o = vlib.run_bin(exe, f, args=args, env=env, timeout=900)
             if rc != 0: ctx.ob(obn, "oracle", False, "%s rc=%d %s" % (tag, rc, o[-300:])); runs = None; break
             if "VERIF_OBS_FILE" in env: o = open(env["VERIF_OBS_FILE"]).read()
             runs[tag] = norm(o)
+            if tag == "reversed-order": runs[tag] = reorder(runs[tag], runs["plain"])
         if runs is None: continue
-        ctx.ob(obn, "oracle", True, "6 executions x %d histories" % M)
+        ctx.ob(obn, "oracle", True, "7 executions x %d histories" % len(dc))
         byname = {c.name: c for c in dc}
         for tag in runs:
             if tag == "plain": continue
@@ -102,7 +135,7 @@ def run(ctx):
     for c in dc: ctx.classes.add("mem " + " ".join(c.tags))
     ctx.coverage["evaluations"] += M * 5 * 6
     ctx.coverage["rule"] = ("exact runs with 4 different fillers for never-written memory (xrat default construction carries a taint bit that propagates through arithmetic): "
-                            "no output may be tainted and all outputs must be identical; double runs: glibc MALLOC_PERTURB_ 1/85/255, 8 threads vs sequential, verbose+timings on vs off: bitwise equal")
+                            "no output may be tainted and all outputs must be identical; double runs: glibc MALLOC_PERTURB_ 1/85/255, 8 threads vs sequential, the same cases in reversed order in one process (instance independence; refinement always on, visible static regularisation, P magnitudes 1e-2..1e8), verbose+timings on vs off: bitwise equal")
     ctx.coverage["samples"] = [cases[0].text()[:1500]]
     ctx.trusted += ["Coq 8.16.1 kernel", "xrat taint tracking (harness)", "glibc MALLOC_PERTURB_ for heap pre-states; default-initialised solver object (no zero fill)"]
     ctx.assumptions += ["data races inside libc/Eigen are outside the model; TSan/valgrind runs are not part of the quick tier"]
